@@ -1339,3 +1339,82 @@ def run(ctx, rep):  # noqa: F811
     _old_run15e(ctx, rep)
     rep.rule("R15.16", "sibling blocks that handle the lower and the upper bound are mirror images of each other")
     r1516(ctx, rep)
+
+
+# ---------------------------------------------------------------------------
+def r1517(ctx, rep):
+    """a quantity derived from the iterate (distances to the bounds, images,
+    norms) that is used inside a loop which moves the iterate must be
+    recomputed in that loop: hoisting it out of the loop freezes it at the
+    iterate of the first pass (checkpoint copies are the intended exception)"""
+    n = 0
+    for q in PUBLIC[:3]:
+        f = ctx.func(q)
+        rv = returned_names(f)
+        it = rv[0] if rv and rv[0] else None
+        if it is None:
+            continue
+        cfg = ctx.cfg(f)
+        rd = cfg.reaching_defs()
+        for loop in ast.walk(f.node):
+            if not isinstance(loop, (ast.While, ast.For)):
+                continue
+            body_nodes = {cfg.by_ast[id(s)] for s in ast.walk(loop) if id(s) in cfg.by_ast and s is not loop}
+            # does the loop move the iterate?
+            moves = False
+            for s in ast.walk(loop):
+                if isinstance(s, (ast.Assign, ast.AugAssign)):
+                    for t in (s.targets if isinstance(s, ast.Assign) else [s.target]):
+                        b_ = t
+                        while isinstance(b_, ast.Subscript):
+                            b_ = b_.value
+                        if isinstance(b_, ast.Name) and b_.id == it:
+                            moves = True
+            if not moves:
+                continue
+            n += 1
+            seen = set()
+            for nid in sorted(body_nodes):
+                nd = cfg.nodes[nid]
+                e = nd.expr()
+                if not isinstance(e, ast.AST):
+                    continue
+                for x in ast.walk(e):
+                    if not (isinstance(x, ast.Name) and isinstance(x.ctx, ast.Load)):
+                        continue
+                    ds = rd.get(nid, {}).get(x.id)
+                    if not ds or (ds & body_nodes) or cfg.entry in ds:
+                        continue
+                    for d in ds:
+                        st = cfg.nodes[d].ast if cfg.nodes[d].kind == "stmt" else None
+                        if not (isinstance(st, ast.Assign) and len(st.targets) == 1 and isinstance(st.targets[0], ast.Name)):
+                            continue
+                        v = st.value
+                        if not any(isinstance(y, ast.Name) and y.id == it for y in ast.walk(v)):
+                            continue
+                        if _short(v) in ("copy", "array") or (isinstance(v, ast.Call) and isinstance(v.func, ast.Attribute) and v.func.attr == "copy"):
+                            continue       # a checkpoint of the iterate
+                        if isinstance(v, ast.Attribute) and v.attr in ("size", "shape", "dtype", "ndim"):
+                            continue
+                        # the definition must lie in the same function level right before / outside this loop
+                        key = (x.id, st.lineno)
+                        if key in seen:
+                            continue
+                        seen.add(key)
+                        rep.bad("R15.17", f"{f.local}:{st.lineno} `{norm(st)[:50]}`")
+                        rep.finding("R15.17", f, norm(st)[:100], st.lineno,
+                                    f"`{x.id}` is computed from the iterate `{it}` before the loop at line {loop.lineno}, the loop moves `{it}` and reads `{x.id}` (line {nd.line}) without recomputing it: "
+                                    "from the second pass on the bound / constraint limits belong to an older iterate and the unclipped update can leave the feasible set")
+            if not seen:
+                rep.ok("R15.17", f"{f.local}: loop at line {loop.lineno} moves `{it}`; every quantity derived from it is recomputed inside")
+    if n < 4:
+        raise AnalysisError(f"only {n} loops that move the iterate found (floor 4)")
+
+
+_old_run15f = run
+
+
+def run(ctx, rep):  # noqa: F811
+    _old_run15f(ctx, rep)
+    rep.rule("R15.17", "quantities derived from the iterate and used in a loop that moves the iterate are recomputed in that loop")
+    r1517(ctx, rep)
